@@ -215,7 +215,7 @@ Lemma inv_same s s' :
   (forall k i p, um_of s' k i p <-> um_of s k i p) ->
   (forall x, In x (used s') <-> In x (used s)) ->
   (forall x, In x (resv s') <-> In x (resv s)) ->
-  registry_exact s' -> Inv s'.
+  registry_sound s' -> Inv s'.
 Proof.
   intros (K & I & U & F & G) K' HU Hu Hr G'.
   assert (M : forall nd p, mapped s' nd p <-> mapped s nd p).
@@ -234,7 +234,7 @@ Lemma inv_mark s s' x :
   (forall k i p, um_of s' k i p <-> um_of s k i p) ->
   (forall y, In y (used s') <-> y = x \/ In y (used s)) ->
   (forall y, In y (resv s') <-> y = x \/ In y (resv s)) ->
-  registry_exact s' -> Inv s'.
+  registry_sound s' -> Inv s'.
 Proof.
   intros (K & I & U & F & G) K' NM HU Hu Hr G'.
   assert (M : forall nd p, mapped s' nd p <-> mapped s nd p).
@@ -253,7 +253,7 @@ Lemma inv_add s s' nd app i p :
   (forall k' i' p', um_of s' k' i' p' <-> (k' = (nd, app) /\ i' = i /\ p' = p) \/ um_of s k' i' p') ->
   (forall x, In x (used s') <-> x = (nd, p) \/ In x (used s)) ->
   (forall x, In x (resv s') <-> In x (resv s) /\ x <> (nd, p)) ->
-  registry_exact s' -> Inv s'.
+  registry_sound s' -> Inv s'.
 Proof.
   intros (K & I & U & F & G) K' NM HU Hu Hr G'.
   assert (M : forall nd' q, mapped s' nd' q <-> (nd' = nd /\ q = p) \/ mapped s nd' q).
@@ -293,7 +293,7 @@ Lemma inv_remove s s' (D : pid -> nat -> Prop) :
   (forall nd q, In (nd, q) (used s') <->
                 In (nd, q) (used s) /\ ~ (exists app i, D (nd, app) i /\ um_of s (nd, app) i q)) ->
   (forall x, In x (resv s') <-> In x (resv s)) ->
-  registry_exact s' -> Inv s'.
+  registry_sound s' -> Inv s'.
 Proof.
   intros (K & I & U & F & G) K' HU Hu Hr G'.
   pose proof (proj1 (injective_um_of s) I) as I0.
@@ -359,8 +359,8 @@ Proof.
     + intros [[-> H]|[_ H]]; [exists a; auto | exact H].
     + intros H. destruct (pair_dec k' k) as [->|NE]; [|right; auto].
       left. split; [reflexivity|]. destruct H as (a0 & H0 & H1). congruence.
-  - intros k'. destruct HI as (_ & _ & _ & _ & G). cbn [shreg]. unfold registry_exact in G. rewrite G.
-    symmetry. apply registered_aset. congruence.
+  - intros k' Hk'. destruct HI as (_ & _ & _ & _ & G). cbn [shreg] in Hk'.
+    apply registered_aset; [congruence | exact (G k' Hk')].
 Qed.
 
 Lemma inv_put_app s k a a' :
@@ -461,7 +461,7 @@ Proof.
   - intros nd app a i app' a' i' p H. discriminate.
   - intros nd p. cbn. split; [intros [] | intros [(app & a & i & H & _)|[]]; discriminate].
   - intros nd p [].
-  - intros k. cbn. split; [intros [] | intros H; apply H; reflexivity].
+  - intros k [].
 Qed.
 
 Lemma um_of_mapped s nd app i p : um_of s (nd, app) i p -> mapped s nd p.
@@ -489,7 +489,7 @@ Proof.
   - intros k' i' p'. apply (um_of_set_slot s (nd, app) a); [exact Hk | exact En | reflexivity].
   - intros x. cbn [used In]. split; intros [H|H]; auto.
   - intros x. cbn [resv]. split; [|tauto]. intros H. split; [exact H|]. intros ->. apply Ef. apply U. right. exact H.
-  - intros k'. cbn [shreg]. unfold registry_exact in G. rewrite G. symmetry. apply registered_aset. congruence.
+  - intros k' Hk'. cbn [shreg] in Hk'. apply registered_aset; [congruence | exact (G k' Hk')].
 Qed.
 
 Lemma inv_qfree s nd app a a1 v :
@@ -510,7 +510,7 @@ Proof.
       destruct H' as (a0 & H0 & H1). assert (a0 = a) by congruence. subst a0. apply NE. congruence.
     + intros [H ND]. split; [exact H|]. intros E. inversion E; subst. apply ND. exists app, i. auto.
   - intros x. cbn [resv]. tauto.
-  - intros k'. cbn [shreg]. unfold registry_exact in G. rewrite G. symmetry. apply registered_aset. congruence.
+  - intros k' Hk'. cbn [shreg] in Hk'. apply registered_aset; [congruence | exact (G k' Hk')].
 Qed.
 
 Lemma stop_used_total s nd app a :
@@ -535,10 +535,10 @@ Proof.
       destruct H' as (a0 & H0 & H1). assert (a0 = a) by (unfold app_of in H0; congruence). subst a0. apply ND. eauto.
     + intros [H ND]. split; [exact H|]. intros [-> [i Hi]]. apply ND. exists app, i. split; [reflexivity|]. exists a. auto.
   - intros x. cbn [resv]. tauto.
-  - intros k'. cbn [shreg]. rewrite In_rem2. unfold registry_exact in G. rewrite G.
+  - intros k' Hk'. cbn [shreg] in Hk'. apply In_rem2 in Hk'. destruct Hk' as [Hk1 Hk2].
     unfold app_of. cbn [apps]. rewrite aget_adel. destruct (pair_eqb k' (nd, app)) eqn:E.
-    + apply pair_eqb_eq in E. split; [intros [_ H]; contradiction | intros H; congruence].
-    + apply pair_eqb_neq in E. tauto.
+    + apply pair_eqb_eq in E. contradiction.
+    + exact (G k' Hk1).
 Qed.
 
 Lemma inv_init_app s nd app n : Inv s -> Inv (fst (step s (Init nd app n))).
@@ -553,10 +553,9 @@ Proof.
     + intros H. right. split; [|exact H]. intros ->. destruct H as (a0 & H0 & _). unfold app_of in H0. congruence.
   - intros x. cbn [used]. tauto.
   - intros x. cbn [resv]. tauto.
-  - intros k'. cbn [shreg In]. unfold registry_exact in G. rewrite G. unfold app_of. cbn [apps]. rewrite aget_aset.
-    destruct (pair_eqb k' (nd, app)) eqn:E.
-    + apply pair_eqb_eq in E. split; [congruence | auto].
-    + apply pair_eqb_neq in E. split; [intros [H|H]; [congruence | exact H] | auto].
+  - intros k' Hk'. cbn [shreg In] in Hk'. unfold app_of. cbn [apps]. rewrite aget_aset.
+    destruct (pair_eqb k' (nd, app)) eqn:E; [discriminate|].
+    apply pair_eqb_neq in E. destruct Hk' as [Hk'|Hk']; [congruence | exact (G k' Hk')].
 Qed.
 
 Lemma inv_reserve s nd : Inv s -> Inv (fst (step s (Reserve nd))).
@@ -594,7 +593,7 @@ Proof.
     - intros y. cbn [resv]. unfold mark_resv. destruct (mem2 (nd, p) (used s)) eqn:Em.
       + apply mem2_In in Em. destruct Hr as [Hr|Hr]; [|contradiction]. split; [auto | intros [->|H]; auto].
       + cbn [In]. split; intros [H|H]; auto.
-    - intros k'. cbn [shreg]. unfold registry_exact in G. rewrite G. symmetry. apply registered_aset. congruence. }
+    - intros k' Hk'. cbn [shreg] in Hk'. apply registered_aset; [congruence | exact (G k' Hk')]. }
   destruct (aget Z.eqb qa (a_arrs a1)) as [[|[v|] l]|]; try (eapply inv_put_app; eauto).
   destruct (has_virtual (a_um a1) v); [eapply inv_put_app; eauto|].
   rewrite Hum.
@@ -607,13 +606,13 @@ Proof.
     destruct (aget Z.eqb ra (a_arrs (with_um a1 (set_nth (a_um a) i (Some p))))); reflexivity.
   - intros x. cbn [used]. apply In_add2.
   - intros x. cbn [resv]. apply In_rem2.
-  - intros k'. cbn [shreg]. unfold registry_exact in G. rewrite G. symmetry. apply registered_aset. congruence.
+  - intros k' Hk'. cbn [shreg] in Hk'. apply registered_aset; [congruence | exact (G k' Hk')].
 Qed.
 
 Theorem inv_step s o : Inv s -> fresh_delivery s o -> Inv (fst (step s o)).
 Proof.
   intros HI HF. destruct o as [nd app n|nd app|nd app v|nd app v|nd app r x|nd app addr len|nd app addr i x
-                              |nd app r|nd app addr|nd|nd app v qa ra info].
+                              |nd app r|nd app addr|nd|nd app v qa ra info|].
   - apply inv_init_app. exact HI.
   - apply inv_stop. exact HI.
   - cbn [step]. destruct (aget pair_eqb (nd, app) (apps s)) as [a|] eqn:Hk; [|exact HI].
@@ -635,6 +634,9 @@ Proof.
     destruct (keep_prefix v qa ra remote purpose a) as [a' [e|]]; cbn [fst] in Hum.
     + cbn [fst]. eapply inv_put_app; eauto.
     + eapply inv_do_keep; [exact HI | exact Hk | exact Hum | apply (HF p); exact E2].
+  - (* ResetMem: the registry is emptied, everything else stays *)
+    cbn [step fst]. destruct HI as (K & I & U & F & G). split; [exact K|]. split; [exact I|].
+    split; [exact U|]. split; [exact F|]. intros k [].
 Qed.
 
 Theorem inv_reachable s : reachable s -> Inv s.
@@ -700,7 +702,7 @@ Theorem isolation s o k' : op_pid o <> Some k' -> app_of (fst (step s o)) k' = a
 Proof.
   intros NE.
   destruct o as [nd app n|nd app|nd app v|nd app v|nd app r x|nd app addr len|nd app addr i x
-                |nd app r|nd app addr|nd|nd app v qa ra info]; cbn [op_pid] in NE;
+                |nd app r|nd app addr|nd|nd app v qa ra info|]; cbn [op_pid] in NE;
     try (assert (NE' : k' <> (nd, app)) by (intros ->; apply NE; reflexivity)); cbn [step];
     try (apply iso_classical; exact NE').
   - destruct (aget pair_eqb (nd, app) (apps s)); [reflexivity|].
@@ -716,6 +718,7 @@ Proof.
     destruct (nth_error info 5); [|reflexivity].
     destruct (nth_error info 6); [|reflexivity].
     destruct (keep_prefix v qa ra z1 z0 a) as [a' [e|]]; [cbn [fst]; apply app_of_put; exact NE' | apply iso_keep; exact NE'].
+  - reflexivity.
 Qed.
 
 (* and the physical qubits another application holds stay marked in use and stay its own *)
@@ -794,7 +797,7 @@ Proof.
     specialize (Hf a). destruct (f a) as [a' [e|]]; cbn [snd] in *; [|split; discriminate].
     destruct Hf. split; congruence. }
   destruct o as [nd app n|nd app|nd app v|nd app v|nd app r x|nd app addr len|nd app addr i x
-                |nd app r|nd app addr|nd|nd app v qa ra info]; cbn [step].
+                |nd app r|nd app addr|nd|nd app v qa ra info|]; cbn [step].
   - destruct (aget pair_eqb (nd, app) (apps s)); [split; discriminate|].
     destruct (mem2 (nd, app) (shreg s)); split; discriminate.
   - destruct (aget pair_eqb (nd, app) (apps s)) as [a|] eqn:Hk; [|split; discriminate].
@@ -836,6 +839,7 @@ Proof.
       destruct (has_virtual _ v'); [split; discriminate|].
       destruct (slot _ v') as [i| |]; try (split; discriminate).
       destruct (nth_error _ i) as [[q|]|]; split; discriminate.
+  - split; discriminate.
 Qed.
 
 (* the pool hands out the least unused physical qubit (what the code's count(0) loop does) *)
@@ -904,7 +908,7 @@ Qed.
 Theorem isolation_nodes s o : same_elsewhere (op_node o) s (fst (step s o)).
 Proof.
   destruct o as [nd app n|nd app|nd app v|nd app v|nd app r x|nd app addr len|nd app addr i x
-                |nd app r|nd app addr|nd|nd app v qa ra info]; cbn [op_node step];
+                |nd app r|nd app addr|nd|nd app v qa ra info|]; cbn [op_node step];
     try apply se_classical.
   - destruct (aget pair_eqb (nd, app) (apps s)); [apply se_refl|].
     destruct (mem2 (nd, app) (shreg s)); [apply se_refl|]. intros x _. cbn. tauto.
@@ -942,17 +946,18 @@ Proof.
     destruct (nth_error _ i) as [[q|]|]; try (intros x Hx; cbn [fst used resv]; rewrite (A _ x Hx), (B x Hx); tauto).
     intros x Hx. cbn [fst used resv]. rewrite (A _ x Hx), In_rem2. split; [tauto|].
     split; [tauto|]. intros H. split; [exact H|]. intros ->. apply Hx. reflexivity.
+  - intros x _. cbn. tauto.
 Qed.
 
 (* the SharedMemoryManager entry of every other (node, app) key is left as it was *)
 Theorem isolation_registry s o k' :
-  op_pid o <> Some k' -> (In k' (shreg (fst (step s o))) <-> In k' (shreg s)).
+  o <> ResetMem -> op_pid o <> Some k' -> (In k' (shreg (fst (step s o))) <-> In k' (shreg s)).
 Proof.
-  intros NE.
+  intros NR NE.
   assert (C : forall k f, shreg (fst (classical s k f)) = shreg s).
   { intros k f. unfold classical. destruct (aget pair_eqb k (apps s)) as [a|]; [|reflexivity]. destruct (f a). reflexivity. }
   destruct o as [nd app n|nd app|nd app v|nd app v|nd app r x|nd app addr len|nd app addr i x
-                |nd app r|nd app addr|nd|nd app v qa ra info]; cbn [op_pid] in NE;
+                |nd app r|nd app addr|nd|nd app v qa ra info|]; cbn [op_pid] in NE;
     try (assert (NE' : k' <> (nd, app)) by (intros ->; apply NE; reflexivity)); cbn [step];
     try (rewrite C; tauto).
   - destruct (aget pair_eqb (nd, app) (apps s)); [tauto|].
@@ -976,4 +981,11 @@ Proof.
     destruct (has_virtual _ v'); [tauto|].
     destruct (slot _ v') as [i| |]; try tauto.
     destruct (nth_error _ i) as [[q|]|]; tauto.
+  - contradiction NR; reflexivity.
 Qed.
+
+(* registering an application id that is registered is refused whatever the shared-memory
+   registry says (e.g. after an external reset_memories()), and changes nothing *)
+Theorem register_live_refused s nd app n a :
+  app_of s (nd, app) = Some a -> step s (Init nd app n) = (s, Fault EAlready).
+Proof. intros H. cbn [step]. unfold app_of in H. rewrite H. reflexivity. Qed.
